@@ -162,9 +162,13 @@ class Realiser:
             self.run_stmts(fs["body"]["stmts"], env)
             self.variant[fi] = variant_here
             outs = [env[r][0] for r in fs["body"]["outs"]]
-            if self.variant.get(fi):
+            v = self.variant.get(fi)
+            if v == 1:
                 # this call site uses a different body: one more Neg on the first result
                 outs[0] = _opmod(17).neg(outs[0])
+            elif v == 2:
+                # ... or, with the same number of nodes as variant 1, an Abs
+                outs[0] = _opmod(17).abs(outs[0])
             return outs
 
         # to_function takes the arity from the signature: make a wrapper with exactly nin parameters
@@ -392,8 +396,10 @@ class NpEval:
                 fi, refs = st[1], st[2]
                 fs = self.spec["funcs"][fi]
                 outs = self.body(fs["body"], [], [env[r] for r in refs])
-                if len(st) > 3 and st[3]:
+                if len(st) > 3 and st[3] == 1:
                     outs[0] = -outs[0]
+                elif len(st) > 3 and st[3] == 2:
+                    outs[0] = np.abs(outs[0])
                 env.extend(outs)
             else:
                 raise ValueError(st)
@@ -498,8 +504,10 @@ def distinguishable_bodies(spec, rng_seed=0):
             sig = []
             for args in probes:
                 outs = NpEval(spec).body(fs["body"], [], list(args))
-                if variant:
+                if variant == 1:
                     outs[0] = -outs[0]
+                elif variant == 2:
+                    outs[0] = np.abs(outs[0])
                 sig.append(tuple(tuple(np.asarray(o, F32).tolist()) for o in outs))
             sigs.add(tuple(sig))
         if len(sigs) > 1:
@@ -873,8 +881,8 @@ class Gen:
                 fi = self.gen_func(depth_budget=rng.choice([0, 1, 1, 2]))
                 fs = self.funcs[fi]
                 call = ["call", fi, [self.pick(types, "f") for _ in range(fs["nin"])]]
-                if self.feat["vary"] and rng.random() < 0.25:
-                    call.append(1)
+                if self.feat["vary"] and rng.random() < 0.3:
+                    call.append(rng.choice([1, 1, 2]))
                 stmts.append(call)
                 types.extend(["f"] * fs["nout"])
             else:
